@@ -43,6 +43,7 @@ type pwGate struct {
 
 // pwWorker owns one server and forces schedules on it, one after the other.
 type pwWorker struct {
+	bigLoaded bool // the collection of the batch stage exists
 	srv *t38.Srv
 
 	mu         sync.Mutex
@@ -57,6 +58,7 @@ type pwWorker struct {
 	tested     map[int]bool    // connection index: passed prewrite.test, branch not yet known
 	marks      map[string]int  // mark -> client id
 	ungated    map[int]bool    // connection index that went live: further writes are not gated
+	logAll   map[int]bool // connections whose socket writes are recorded although they are never parked
 
 	arrived chan int // connection index that reached a gate
 	parked  map[int]*pwGate
@@ -125,7 +127,10 @@ func (w *pwWorker) hook(s *server.Server, point string, args ...interface{}) {
 			w.arrived <- ci
 			<-g.rel
 		}
-		if point == "sock.write" && gated {
+		w.mu.Lock()
+		logit := gated || (ci != 0 && w.logAll[ci])
+		w.mu.Unlock()
+		if point == "sock.write" && logit {
 			// the moment of the socket write: what is in the file now?
 			// (the file is measured and the event recorded in one step of the trace: a flush of another connection
 			// - background flusher, an ungated connection - may run at any time and records under the same mutex)
@@ -143,7 +148,7 @@ func (w *pwWorker) hook(s *server.Server, point string, args ...interface{}) {
 
 func newPwWorker(spin bool) (*pwWorker, error) {
 	w := &pwWorker{byGID: map[int64]int{}, connOf: map[int]int{}, lastSeq: map[int64]int64{},
-		lastEnd: map[int64]int64{}, tested: map[int]bool{}, marks: map[string]int{}, ungated: map[int]bool{},
+		lastEnd: map[int64]int64{}, tested: map[int]bool{}, marks: map[string]int{}, ungated: map[int]bool{}, logAll: map[int]bool{},
 		arrived: make(chan int, 64), parked: map[int]*pwGate{}}
 	port := t38.FreePort()
 	t38.SetHook(port, w.hook)
@@ -164,6 +169,10 @@ type pwConn struct {
 }
 
 var pwMark atomic.Int64
+var nbatch atomic.Int64
+
+// schedule numbers of the batch stage (reported by the trace specification like any other schedule)
+const batchBase = 1000000
 
 // waitArrive waits until connection ci reaches a gate.
 func (w *pwWorker) waitArrive(ci int, d time.Duration) bool {
@@ -329,6 +338,78 @@ func (w *pwWorker) runSchedule(si int, steps []pwStep, nconn int) error {
 	return nil
 }
 
+// runBatch: one connection sends, in ONE segment, a write followed by searches whose replies add up to several MB.  The
+// connection is never parked; every socket write it makes is recorded with the size of the file at that instant, so that
+// the trace specification judges each of them (a reply path that writes part of the batch's output early must have
+// flushed the write's bytes first).
+func (w *pwWorker) runBatch(si int, nscans int) error {
+	ctl, err := w.srv.Dial()
+	if err != nil {
+		return err
+	}
+	defer ctl.Close()
+	if !w.bigLoaded {
+		pad := strings.Repeat("v", 700)
+		for i := 0; i < 1500; i++ {
+			if _, err := ctl.Do("SET", "pwbig", fmt.Sprintf("s%04d", i), "STRING", pad); err != nil {
+				return err
+			}
+		}
+		w.bigLoaded = true
+	}
+	if _, err := ctl.Do("SET", "pw", "ctl", "POINT", "0", "0"); err != nil {
+		return err
+	}
+	w.mu.Lock()
+	w.sched = si
+	w.connOf = map[int]int{}
+	w.tested = map[int]bool{}
+	w.ungated = map[int]bool{1: true}
+	w.logAll = map[int]bool{1: true}
+	w.log(pwEvent{E: "reset", N: w.appendSeq, Bytes: w.flushBytes})
+	w.mu.Unlock()
+	defer func() {
+		w.mu.Lock()
+		w.logAll = map[int]bool{}
+		w.mu.Unlock()
+	}()
+	c, err := w.srv.Dial()
+	if err != nil {
+		return err
+	}
+	defer c.Close()
+	c.Timeout = 30 * time.Second
+	mark := fmt.Sprintf("pwmark-%d", pwMark.Add(1))
+	if _, err := c.Do("TYPE", mark); err != nil {
+		return err
+	}
+	w.mu.Lock()
+	id, ok := w.marks[mark]
+	delete(w.marks, mark)
+	if ok {
+		w.connOf[id] = 1
+	}
+	w.mu.Unlock()
+	if !ok {
+		return fmt.Errorf("connection mark not seen by the cmd.begin hook")
+	}
+	w.gating.Store(true)
+	defer w.gating.Store(false)
+	buf := t38.AppendCommand(nil, "SET", "pw", fmt.Sprintf("batch-%d", si), "POINT", "5", "6")
+	for i := 0; i < nscans; i++ {
+		buf = t38.AppendCommand(buf, "SCAN", "pwbig", "LIMIT", "100000")
+	}
+	if _, err := c.C.Write(buf); err != nil {
+		return err
+	}
+	for i := 0; i < nscans+1; i++ {
+		if _, err := c.Recv(); err != nil {
+			return fmt.Errorf("batch %d: reply %d: %v", si, i, err)
+		}
+	}
+	return nil
+}
+
 // prewriteCmd forces TLC-generated schedules of the pre-write protocol on
 // real servers and records the trace that PrewriteTrace.tla validates.
 func prewriteCmd(args []string) int {
@@ -338,6 +419,7 @@ func prewriteCmd(args []string) int {
 	nconn := fs.Int("conns", 2, "connections per schedule")
 	par := fs.Int("par", 8, "parallel servers")
 	spin := fs.Bool("spinlock", false, "spinlock implementation")
+	batches := fs.Int("batches", 0, "servers that also run pipelined batches with multi-megabyte replies")
 	fs.Parse(args)
 	f, err := os.Open(*in)
 	if err != nil {
@@ -381,6 +463,15 @@ func prewriteCmd(args []string) int {
 					return
 				}
 			}
+			if wi < *batches {
+				for r := 0; r < 2; r++ {
+					if err := w.runBatch(batchBase+wi*10+r, 2+r); err != nil {
+						results[wi].err = err
+						return
+					}
+					nbatch.Add(1)
+				}
+			}
 			w.mu.Lock()
 			results[wi].events = w.events
 			w.mu.Unlock()
@@ -415,6 +506,7 @@ func prewriteCmd(args []string) int {
 	}
 	bw.Flush()
 	of.Close()
-	emit(map[string]interface{}{"schedules": len(scheds), "events": total, "writes": writes, "tests": tests, "appends": appends})
+	emit(map[string]interface{}{"schedules": len(scheds), "events": total, "writes": writes, "tests": tests, "appends": appends,
+		"batches": nbatch.Load()})
 	return 0
 }
